@@ -2,7 +2,8 @@
    hem_pj, merton_pj, vg_pj, cgmy_pj, the cumulants and the simulation drifts are py2coq-generated (Gen.GenC10 modules). *)
 From Coq Require Import Reals Lra Psatz Bool.
 From Coquelicot Require Import Coquelicot.
-From RV Require Import Base.RB Gen.GenC10Hem Gen.GenC10Merton Gen.GenC10Vg Gen.GenC10Cgmy Gen.GenC10Bs Gen.GenC10Exp Model.LevyExponent.
+From RV Require Import Base.RB Gen.GenC10Triplet Gen.GenC10Hem Gen.GenC10Merton Gen.GenC10Vg Gen.GenC10Cgmy Gen.GenC10Bs Gen.GenC10Exp
+  Model.LevyExponent Proofs.C10_Triplet.
 Open Scope R_scope.
 
 (* ------------------------------------------------------------------ martingale, characteristic-function route (true by construction) *)
@@ -194,3 +195,58 @@ Proof.
   rewrite Reqb_false' by (intros E; apply H1; rewrite E; field).
   cbv beta iota zeta. ring.
 Qed.
+
+(* ------------------------------------------------------------------ martingale, Markov-chain route (algebra) *)
+Section Ctmc.
+Variables (INF : R) (m1 : R -> R -> R) (fv : bool) (a0 : R) (rep : Rep).
+(* additivity of the first-moment function over (-inf,-1], [-1,1], [1,inf) split at 0 (C09_additive) *)
+Hypothesis m1_add : fv = true -> m1 (- INF) (- 0) + m1 0 INF = m1 (- INF) (-1) + m1 (-1) 1 + m1 1 INF.
+
+Lemma tilde_plus_mu_tilde :
+  tilde_drift INF m1 fv a0 (rep_code rep) + ctmc_mu_tilde INF m1 fv = center_drift INF m1 fv a0 (rep_code rep).
+Proof.
+  unfold tilde_drift, center_drift, ctmc_mu_tilde. cbv beta iota zeta.
+  destruct fv.
+  - specialize (m1_add eq_refl). lra.
+  - replace (- (1)) with (-1) by lra. ring.
+Qed.
+
+Theorem martingale_ctmc r d sigma (pj : R -> R) Jc mu_h :
+  kappa a0 sigma pj 1 = center_drift INF m1 fv a0 (rep_code rep) + sigma ^ 2 / 2 + Jc ->
+  ctmc_growth_exact
+    (ctmc_process_drift (exp_model_drift r d (omega_of a0 sigma pj)) (tilde_drift INF m1 fv a0 (rep_code rep))
+                        (ctmc_mu_tilde INF m1 fv) mu_h) mu_h sigma Jc = r - d.
+Proof.
+  intros Hrep. unfold ctmc_growth_exact, ctmc_process_drift, exp_model_drift, omega_of. rewrite Hrep.
+  rewrite <- tilde_plus_mu_tilde. field.
+Qed.
+End Ctmc.
+
+(* H_rep for a model declared in the ZERO representation whose exponent is int (e^{s x} - 1) nu: at s = 1 *)
+Lemma Hrep_zero_declared INF m1 fv a0 sigma (pj : R -> R) J0 Iall :
+  pj 1 = J0 -> Iall = m1 (- INF) (-1) + m1 (-1) 1 + m1 1 INF ->
+  kappa a0 sigma pj 1 = center_drift INF m1 fv a0 (rep_code ZERO) + sigma ^ 2 / 2 + (J0 - Iall).
+Proof.
+  intros HJ HI. unfold kappa, center_drift. cbv beta iota zeta. rewrite (canonical_drift_spec INF m1 fv a0 ZERO).
+  unfold to_canonical, I11. rewrite HJ, HI. field.
+Qed.
+
+(* assembled statements for Properties/C10.v *)
+Theorem hem_cumulants a sigma lam p eta1 eta2 : 0 < eta1 -> 0 < eta2 -> forall t,
+  (is_derive (kappa a sigma (hem_pj lam p eta1 eta2)) 0 (hem_cumulant1 a lam p eta1 eta2 1)
+   /\ hem_cumulant1 a lam p eta1 eta2 t = t * hem_cumulant1 a lam p eta1 eta2 1) /\
+  (is_derive_n (kappa a sigma (hem_pj lam p eta1 eta2)) 2 0 (hem_cumulant2 sigma lam p eta1 eta2 1)
+   /\ hem_cumulant2 sigma lam p eta1 eta2 t = t * hem_cumulant2 sigma lam p eta1 eta2 1).
+Proof. intros. split; [apply hem_cumulant1_derive | apply hem_cumulant2_derive]; assumption. Qed.
+Theorem merton_cumulants a sigma lam mu_j sigma_j t :
+  (is_derive (kappa a sigma (merton_pj lam mu_j sigma_j)) 0 (merton_cumulant1 a lam mu_j sigma_j 1)
+   /\ merton_cumulant1 a lam mu_j sigma_j t = t * merton_cumulant1 a lam mu_j sigma_j 1) /\
+  (is_derive_n (kappa a sigma (merton_pj lam mu_j sigma_j)) 2 0 (merton_cumulant2 sigma lam mu_j sigma_j 1)
+   /\ merton_cumulant2 sigma lam mu_j sigma_j t = t * merton_cumulant2 sigma lam mu_j sigma_j 1).
+Proof. split; [apply merton_cumulant1_derive | apply merton_cumulant2_derive]. Qed.
+Theorem vg_cumulants a sigma nu theta : nu <> 0 -> forall t,
+  (is_derive (kappa a 0 (vg_pj sigma nu theta)) 0 (vg_cumulant1 a sigma nu theta 1)
+   /\ vg_cumulant1 a sigma nu theta t = t * vg_cumulant1 a sigma nu theta 1) /\
+  (is_derive_n (kappa a 0 (vg_pj sigma nu theta)) 2 0 (vg_cumulant2 sigma nu theta 1)
+   /\ vg_cumulant2 sigma nu theta t = t * vg_cumulant2 sigma nu theta 1).
+Proof. intros. split; [apply vg_cumulant1_derive | apply vg_cumulant2_derive]; auto. Qed.
